@@ -7,7 +7,8 @@
    * one forwarding task per subscription (OutputPortSubscription::new):
      loop { recv; converter; cast }, exits when the cast fails;
    * the subscription vector with pruning of finished tasks on subscribe;
-   * receiving actors: alive flag, FIFO mailbox, what the handler has received.
+   * receiving actors: alive flag, started flag (a Starting actor accepts and queues
+     messages, its handler runs only once it is Running), FIFO mailbox, what the handler has received.
      Items are tagged with the subscription they came through.
 
    Every scheduler choice is a label.  `log` is ghost (all accepted publishes);
@@ -46,7 +47,8 @@ Section V1.
   | LRecv (s : N)                 (* task s: port.recv() returns (item or Lagged) *)
   | LCast (s : N)                 (* task s: converter(msg) and receiver.cast *)
   | LHandle (a s : N)             (* actor a: handler takes the mailbox head, which came through s *)
-  | LStop (a : N).                (* actor a terminates (stop, kill, handler error) *)
+  | LStop (a : N)                 (* actor a terminates (stop, kill, handler or pre_start error) *)
+  | LStart (a : N).               (* actor a finishes pre_start/post_start: Starting -> Running *)
 
   Definition init : state :=
     mkSt 0 [] 0 (fun _ => None) [] [] (fun _ => actor0) [].
@@ -115,7 +117,7 @@ Section V1.
                     if a_alive x then
                       Some (set_actor
                               (set_task st s (mkSub (s_actor sb) (s_conv sb) (s_cursor sb) PRecv))
-                              (s_actor sb) (mkActor true (a_mbox x ++ [(s, r)]) (a_got x)))
+                              (s_actor sb) (mkActor true (a_started x) (a_mbox x ++ [(s, r)]) (a_got x)))
                     else (* cast failed: return; the Receiver is dropped *)
                       Some (mkSt (tail st) (ring st) (pred (rxcnt st))
                                  (updf (tasks st) s (Some (mkSub (s_actor sb) (s_conv sb) (s_cursor sb) PDone)))
@@ -127,18 +129,22 @@ Section V1.
         end
     | LHandle a s =>
         let x := actors st a in
-        if a_alive x then
+        if a_alive x && a_started x then
           match a_mbox x with
           | (s', r) :: q =>
               if N.eqb s' s
-              then Some (set_actor st a (mkActor true q (a_got x ++ [(s', r)])))
+              then Some (set_actor st a (mkActor true true q (a_got x ++ [(s', r)])))
               else None
           | [] => None
           end
         else None
     | LStop a =>
         let x := actors st a in
-        if a_alive x then Some (set_actor st a (mkActor false [] (a_got x))) else None
+        if a_alive x then Some (set_actor st a (mkActor false (a_started x) [] (a_got x))) else None
+    | LStart a =>
+        let x := actors st a in
+        if a_alive x && negb (a_started x)
+        then Some (set_actor st a (mkActor true true (a_mbox x) (a_got x))) else None
     end.
 
   Fixpoint run (st : state) (ls : list label) : option state :=
@@ -199,6 +205,7 @@ Section V1.
     | LCast s' => if N.eqb s' s then [ACast] else []
     | LHandle _ s' => if N.eqb s' s then [AHandle] else []
     | LStop a' => if N.eqb a' a then [AStop] else []
+    | LStart _ => []
     end.
   Definition projs (s a : N) (ls : list label) : list alabel := flat_map (proj s a) ls.
 
@@ -220,3 +227,4 @@ Arguments LRecv {C}.
 Arguments LCast {C}.
 Arguments LHandle {C}.
 Arguments LStop {C}.
+Arguments LStart {C}.
